@@ -467,7 +467,24 @@ class Weaver:
         end = it.end
         ii = 0
 
+        unit_closure = [False]
+
         def r5(a, b):
+            # R7: a closure parameter written as the unit pattern `|()|` is given a name and its type (`|_u: ()|`); Verus wants
+            # identifiers for closure parameters, the value is `()` either way
+            txt7 = s[a:b]
+            if re.search(r'\|\s*\(\s*\)\s*\|', m[a:b]):
+                out7, last7 = [], a
+                for mm7 in re.finditer(r'\|\s*\(\s*\)\s*\|', m[a:b]):
+                    out7.append(s[last7:a + mm7.start()]); out7.append('|_u: ()|'); last7 = a + mm7.end()
+                out7.append(s[last7:b])
+                txt7 = ''.join(out7)
+                if not unit_closure[0]:
+                    unit_closure[0] = True
+                    self.rules.append({'rule': 'R7 unit closure parameter named', 'fn': fname, 'loop': 0})
+                    info.rules.append('R7')
+                if not mut_self:
+                    return txt7
             if not mut_self:
                 return s[a:b]
             out, last = [], a
